@@ -179,14 +179,15 @@ def all_entailed_by(lins, oracle_holds_implies):
     return None
 
 
-def rule_M1(m, rep, rid='M1'):
-    """Bypass iff the metric cannot fit an empty buffer: both polarities."""
+def rule_M1(m, rep, rid='M1', exact_fill_may_bypass=False):
+    """Bypass iff the metric cannot fit an empty buffer: both polarities.  For greedy packing alone (C19) a metric that
+    fills a datagram exactly may go either way: it shares its datagram with nothing in both cases."""
     T = m.T
     byp = m.bypass_blocks()
     bww = m.bw_write_blocks()
     if not rep.floor(rid, 'bypass write through get_mut', len(byp), 1):
         return
-    N_E_C = L.Lin({'N': 1, 'E': 1, 'C': -1}, -1)          # N + E - C - 1 >= 0   (does not fit)
+    N_E_C = L.Lin({'N': 1, 'E': 1, 'C': -1}, 0 if exact_fill_may_bypass else -1)          # N + E - C - 1 >= 0   (does not fit)
     FITS = L.Lin({'C': 1, 'N': -1, 'E': -1}, 0)            # C - N - E >= 0       (fits)
     for bi, arg in byp:
         rep.sites()
@@ -357,7 +358,7 @@ def _err_payload_of(e, callterm):
         return False
 
 
-def rule_M4_M5_M6(m, rep, want=('M4', 'M5', 'M6')):
+def rule_M4_M5_M6(m, rep, want=('M4', 'M5', 'M6'), zero_store_ok=False):
     """Buffered path: write(buf) then write(line_ending), each whole, each Err returns at once; `written` counts the
     Ok payloads right after each call; returns Ok(r1)."""
     T, body = m.T, m.wbody
@@ -424,6 +425,8 @@ def rule_M4_M5_M6(m, rep, want=('M4', 'M5', 'M6')):
                     which = 1
                 elif _is_add_of(v, m, r2):
                     which = 2
+                if which is None and zero_store_ok and v == ('const', 'usize', '0', None):
+                    continue        # a reset can never push the counter above the capacity
                 if which is None:
                     rep.bad('M5', 'unexpected-store', body.where(b, i),
                             'store to self.%s in write that is not `%s + <bytes just buffered>`: %s' % (
